@@ -278,7 +278,15 @@ func c20Render(tpl string, vars []c20Var) rendered {
 		key = k
 		c20Keys[tpl] = k
 	}
+	// every other render runs on a context that was used for the earlier renders and Reset (the way pooled
+	// contexts are used): nothing a modifier leaves in the context may influence the next value
+	c20Renders++
 	ctx := dyntpl.NewCtx()
+	reused := false
+	if c20Held != nil && c20Renders%2 == 0 {
+		ctx, reused = c20Held, true
+		ctx.Reset()
+	}
 	for _, v := range vars {
 		if v.Kind == "missing" {
 			continue
@@ -289,8 +297,19 @@ func c20Render(tpl string, vars []c20Var) rendered {
 		}
 		ctx.SetStatic(v.Name, val)
 	}
-	return renderSafe(key, ctx)
+	res := renderSafe(key, ctx)
+	if res.Panic != "" {
+		c20Held = nil
+	} else if !reused && c20Held == nil {
+		c20Held = ctx
+	}
+	return res
 }
+
+var (
+	c20Held    *dyntpl.Ctx
+	c20Renders int
+)
 
 // c20Same compares a rendered text with the expected one.
 func c20Same(cmp, got, want string) bool {
@@ -866,7 +885,8 @@ func c20CarrierKinds() []string {
 	return out
 }
 
-var c20NumTexts = []string{"3.5", "-2", "1e3", "0", "10", "-0.25", "7", "2.5e-3", "+4", "1E2", "-1e-2", "100", "0.1", "16", "3"}
+var c20NumTexts = []string{"3.5", "-2", "1e3", "0", "10", "-0.25", "7", "2.5e-3", "+4", "1E2", "-1e-2", "100", "0.1", "16", "3",
+	"010", "0017", "08", "007.50", "-012"} // zero-padded decimals are decimals
 
 // c20Operand picks a value of the given carrier kind.
 func c20Operand(r *Run, name, kind string, salt int) c20Var {
